@@ -16,6 +16,7 @@ mod ops8;
 mod ops9;
 mod ops10;
 mod ops11;
+mod ops12;
 
 fn main() {
     std::panic::set_hook(Box::new(|_| {}));
